@@ -28,7 +28,7 @@ Init == g = [x \in All |-> Base(x)] /\ nmut = 0
 Mut(x) ==
    {[f |-> "name", v |-> n] : n \in {"a", "b", "#id"}} \cup
    {[f |-> "idof", v |-> y] : y \in (All \cup {"d1"}) \ {x}} \cup
-   (IF x \in SecH THEN {[f |-> "type", v |-> t] : t \in {"none", "n.s.", "u"}} \cup
+   (IF x \in SecH THEN {[f |-> "type", v |-> t] : t \in {"none", "n.s.", "u", "s"}} \cup
                        {[f |-> c, v |-> v] : c \in {"scard", "pcard"}, v \in {"max1", "min1", "min3", "1to1", "1to2", "2to2"}}
     ELSE {[f |-> "dep", v |-> d] : d \in {"a", "b", "zz", "none"}} \cup
          {[f |-> "depval", v |-> d] : d \in {"first", "later", "part", "other"}} \cup
